@@ -5274,7 +5274,7 @@ impl<'a> Parser<'a> {
                 match self.peek_token().token {
                     Token::Word(w)
                         if ALL_KEYWORDS
-                            .binary_search(&w.value.to_uppercase().as_str())
+                            .binary_search(&w.value.to_ascii_uppercase().as_str())
                             .is_err() =>
                     {
                         // Not a keyword - start of a new declaration.
